@@ -62,10 +62,28 @@ class DenseCSR:
     def tocsr(s):
         return s
 
-    def toarray(s):
+    def toarray(s, order=None, out=None):
+        if out is not None:  # scipy contract: the dense array is written into (and returned as) `out`
+            out[...] = s.a
+            return out
         return s.a.copy()
 
-    todense = toarray
+    def todense(s):
+        return s.a.copy()
+
+    def diagonal(s, k=0):
+        return _np.array([s.a[i, i + k] for i in range(max(0, -k), min(s.shape[0], s.shape[1] - k))], dtype=object)
+
+    def tolil(s):
+        return s
+
+    def __setitem__(s, key, value):
+        """lil/csr item assignment: A[rows, cols] = value (paired fancy indices, boolean masks, scalars, slices)"""
+        if isinstance(value, DenseCSR):
+            value = value.a
+        if not isinstance(value, _np.ndarray):
+            value = co(value) if co(value) is not None else value
+        s.a[key] = value
 
     def __getitem__(s, key):
         if not (isinstance(key, tuple) and len(key) == 2):
@@ -199,6 +217,15 @@ def selfcheck(seed=0):
     e0 = _np.array([], dtype=int)
     checks.append(S[rows, :][:, e0].shape == D[rows, :][:, e0].shape)
     checks.append(_np.allclose(S[rows, :][:, e0].dot(_np.zeros(0)), f(D[rows, :][:, e0].dot(_np.zeros(0)))[0]))
+    checks.append(_np.allclose(S.diagonal(), f(D.diagonal())[0]))
+    S4, D4 = csr_matrix(A * (A > 0)).tolil(), DenseCSR(A * (A > 0)).tolil()
+    msk = S4.diagonal() == 0
+    S4[msk, msk] = 1
+    D4[msk, msk] = 1
+    checks.append(_np.allclose(S4.tocsr().toarray(), f(D4.tocsr().toarray())))
+    buf = _np.zeros((5, 5))
+    bufd = _np.empty((5, 5), dtype=object)
+    checks.append(S.toarray(out=buf) is buf and D.toarray(out=bufd) is bufd and _np.allclose(buf, f(bufd)))
     from scipy.sparse.linalg import spsolve
 
     M = A + 10 * _np.eye(5)
